@@ -186,6 +186,32 @@ def b_special(c):
     return (lambda v: getattr(np, prim)(v)), x, {}
 
 
+# ----------------------------------------------------------------------------- a real value placed into a complex array
+def b_realinto(c):
+    prim, st, pre, pos = c["prim"], c["st"], c["ia"], c["argnum"]
+    s = tuple(c["s"])
+    x = data(s)
+    C = data(s, 0.5, 1.5, 3, True)
+    perm = onp.arange(s[0])
+
+    def prep(v):
+        if pre == 1:
+            return v[perm]
+        if pre == 2:
+            return v[::1]
+        return v
+
+    def f(v):
+        ops = [prep(v), C] if pos == 0 else [C, prep(v)]
+        seq = tuple(ops) if st == "tuple" else ops
+        if prim == "append":
+            return np.append(ops[0], ops[1])
+        if prim == "array":
+            return np.array(seq)
+        return getattr(np, prim)(seq)
+    return f, x, {}
+
+
 # ----------------------------------------------------------------------------- the extension API on arguments of different shapes
 def b_extend(c):
     from autograd.extend import primitive, defvjp, defjvp
@@ -855,4 +881,4 @@ def b_helper(c):
     return f, x, {}
 
 
-BUILDERS = {"special": b_special, "extend": b_extend, "helper": b_helper, "argsweep": b_argsweep, "kink": b_kink, "linalg": b_linalg, "fft": b_fft, "index": b_index, "join": b_join, "contract": b_contract, "rearr": b_rearr, "binary": b_binary, "where": b_where, "reduce": b_reduce, "cum": b_cum, "unary": b_unary}
+BUILDERS = {"realinto": b_realinto, "special": b_special, "extend": b_extend, "helper": b_helper, "argsweep": b_argsweep, "kink": b_kink, "linalg": b_linalg, "fft": b_fft, "index": b_index, "join": b_join, "contract": b_contract, "rearr": b_rearr, "binary": b_binary, "where": b_where, "reduce": b_reduce, "cum": b_cum, "unary": b_unary}
